@@ -153,6 +153,8 @@ def asift(pred, items):
     """Sifts a list of items into those that meet the predicate and those that don't."""
     yes = []
     no = []
+    # Make sure generators work correctly (we'll iterate over them twice).
+    items = list(items)
     results = yield [pred.asynq(item) for item in items]
     for item, yesno in zip(items, results):
         if yesno:
